@@ -98,31 +98,67 @@ def _telnet_test_in_file_args(fn):
     raise TranslateError(f"{DRV}: _setup_ssh_file_args telnet short-cut has an unexpected shape")
 
 
-def _resolver(fn, argname):
-    """`if <arg> == "" and transport == "<sys>": return SystemTransport.<MAGIC>` and the `for path in (...)` tuple"""
-    sysname = magic_attr = None
-    paths = None
-    for st in fn.body:
-        if isinstance(st, ast.If) and isinstance(st.test, ast.BoolOp) and isinstance(st.test.op, ast.And):
-            for v in st.test.values:
-                if isinstance(v, ast.Compare) and isinstance(v.left, ast.Name) and v.left.id == "transport" \
-                        and isinstance(v.ops[0], ast.Eq):
-                    sysname = ast.literal_eval(v.comparators[0])
-                elif isinstance(v, ast.Compare) and isinstance(v.left, ast.Name) and v.left.id == argname \
-                        and isinstance(v.ops[0], ast.Eq):
-                    if ast.literal_eval(v.comparators[0]) != "":
-                        raise TranslateError("magic-string test is not against the empty string")
-            ret = next((s for s in st.body if isinstance(s, ast.Return)), None)
-            if ret is not None and isinstance(ret.value, ast.Attribute):
-                magic_attr = ret.value.attr
-        if isinstance(st, ast.For) and isinstance(st.iter, ast.Tuple):
-            elts = st.iter.elts
-            if not (isinstance(elts[0], ast.Name) and elts[0].id == argname):
-                raise TranslateError("fall-back tuple does not start with the argument")
-            paths = [ast.literal_eval(e) for e in elts[1:]]
-    if sysname is None or magic_attr is None or paths is None or len(paths) != 2:
-        raise TranslateError(f"{DRV}: {fn.name} has an unexpected shape")
-    return sysname, magic_attr, paths
+def _resolver(method):
+    """what `_resolve_ssh_config` / `_resolve_ssh_known_hosts` DO, observed by running the real method with the
+    file-existence tests recorded (no AST shape is assumed, so helpers / loops / early returns may be arranged freely):
+    -> (the one transport name for which "" gives a marker string, that marker, the two fall-back paths in order).
+    Raises TranslateError when the behaviour is not "marker for (\"\", system); else the first existing of
+    (argument, fall-back 1, fall-back 2) after ~ expansion; else \"\"" — the shape the model has."""
+    import os
+    import pathlib
+    from unittest import mock
+    from scrapli.driver.base.base_driver import BaseDriver
+    from scrapli.transport import CORE_TRANSPORTS
+    from scrapli.transport.plugins.system.transport import SystemTransport
+
+    home, arg = "/c17-probe-h0me", "/c17-probe-arg/some_file"
+    fn = getattr(BaseDriver(host="h"), method)
+    probes, existing = [], set()
+
+    def rec(path):
+        path = os.fspath(path)
+        if not probes or probes[-1] != path:
+            probes.append(path)
+        return existing == {"*"} or path in existing
+
+    def call(a, t, exist=()):
+        probes.clear()
+        existing.clear()
+        existing.update(exist)
+        with mock.patch.object(pathlib.Path, "is_file", lambda self: rec(str(self))), \
+                mock.patch.object(pathlib.Path, "exists", lambda self, **kw: rec(str(self))), \
+                mock.patch("os.path.isfile", rec), mock.patch("os.path.exists", rec), \
+                mock.patch.dict(os.environ, {"HOME": home}):
+            r = fn(a, transport=t)
+        if not isinstance(r, str):
+            raise TranslateError(f"{DRV}: {method}({a!r}, {t!r}) returned {r!r}")
+        return r, list(probes)
+
+    markers = {t: call("", t)[0] for t in CORE_TRANSPORTS}
+    sysnames = [t for t, r in markers.items() if r != ""]
+    if len(sysnames) != 1:
+        raise TranslateError(f"{DRV}: {method}('') gives a marker for {sysnames}, expected exactly one transport")
+    sysname, magic = sysnames[0], markers[sysnames[0]]
+    if magic not in [v for k, v in vars(SystemTransport).items() if isinstance(v, str)]:
+        raise TranslateError(f"{DRV}: {method}: marker {magic!r} is not a SystemTransport constant")
+    other = next(t for t in CORE_TRANSPORTS if t != sysname and "telnet" not in t)
+    r0, order = call(arg, other)
+    if r0 != "" or len(order) != 3 or order[0] != arg:
+        raise TranslateError(f"{DRV}: {method}: with nothing on disk expected '' after probing (argument, 2 fall-backs), "
+                             f"got {r0!r} after {order}")
+    for t in (other, sysname):                     # an explicit path never gives the marker, same candidates for all
+        for exist, want in ([(set(), "")] + [({order[k]}, order[k]) for k in range(3)] +
+                            [({"*"}, order[0]), ({order[1], order[2]}, order[1])]):
+            r, pr = call(arg, t, exist)
+            if r != want or pr != order[:len(pr)]:
+                raise TranslateError(f"{DRV}: {method}({arg!r}, {t!r}) with files {sorted(exist)}: got {r!r} probing {pr}, "
+                                     f"expected {want!r} in order {order}")
+    # the empty argument (True) on a non-system transport is never a file: the fall-backs decide
+    r, _ = call("", other, {order[1]})
+    if r != order[1]:
+        raise TranslateError(f"{DRV}: {method}('', {other!r}) does not fall back to {order[1]!r}: {r!r}")
+    paths = ["~" + q[len(home):] if q.startswith(home + "/") else q for q in order[1:]]
+    return sysname, magic, paths
 
 
 def _plugin_fields(name):
@@ -238,6 +274,20 @@ def _dial_sites():
     kw = kwargs_of("scrapli/transport/plugins/paramiko/transport.py", "_authenticate_public_key", "RSAKey")
     if kw.get("filename") != "self.plugin_transport_args.auth_private_key":
         raise TranslateError(f"paramiko: key file does not come from the plugin args: {kw}")
+    out.append(("paramiko", "auth_publickey(username, RSAKey(filename)), auth_password(username)"))
+    # ssh2: every userauth_* call names the plugin args' user first, the key file call the plugin args' key second
+    rel = "scrapli/transport/plugins/ssh2/transport.py"
+    calls = [c for c in ast.walk(_parse(rel)) if isinstance(c, ast.Call) and isinstance(c.func, ast.Attribute)
+             and c.func.attr.startswith("userauth_") and c.func.attr != "userauth_authenticated"]
+    if not calls:
+        raise TranslateError(f"{rel}: no userauth_* call found")
+    for c in calls:
+        args = [_src(x) for x in c.args] + [_src(k.value) for k in c.keywords if k.arg == "username"]
+        if "self.plugin_transport_args.auth_username" not in args[:1] + args[len(c.args):]:
+            raise TranslateError(f"{rel}: {c.func.attr} does not authenticate as the plugin args' user: {args}")
+        if "publickey" in c.func.attr and not any(x.startswith("self.plugin_transport_args.auth_private_key") for x in args):
+            raise TranslateError(f"{rel}: {c.func.attr} does not use the plugin args' key: {args}")
+    out.append(("ssh2", ", ".join(sorted({c.func.attr for c in calls})) + "(username[, key])"))
     # the socket connects to what it was constructed with
     rel = "scrapli/transport/base/base_socket.py"
     tree = _parse(rel)
@@ -251,6 +301,43 @@ def _dial_sites():
     out.append(("base_socket", "sock.connect((self.host, self.port))"))
     # every other mention of host / port inside the transports must be the base transport args (logging, errors)
     return out
+
+
+LAST = {}
+
+
+def _update_table():
+    """the decision table of `_update_ssh_args_from_ssh_config`, PROBED: the real method is called on a real driver for all
+    2^6 combinations of (config Port none/2222, port given (830) / omitted (22), config User ''/carl, auth_username ''/bob,
+    config IdentityFile none//cfg/key, auth_private_key ''//own/key) with `ssh_config_factory` replaced by a stub that
+    hands out the entry -> rows ((inputs), (driver.port, base transport args port, auth_username, auth_private_key))"""
+    import itertools
+    import types
+    from unittest import mock
+    import scrapli.driver.base.base_driver as bd
+    rows = []
+    for cp, given, cu, u, ci, k in itertools.product((None, 2222), (False, True), ("", "carl"), ("", "bob"),
+                                                     (None, "/cfg/key"), ("", "/own/key")):
+        d = bd.BaseDriver(host="h", transport="paramiko", auth_username=u, **({"port": 830} if given else {}))
+        init = 830 if given else 22
+        if d.port != init or d._base_transport_args.port != init:
+            raise TranslateError(f"{DRV}: constructor without ssh config gives port {d.port}/{d._base_transport_args.port}, expected {init}")
+        d.auth_private_key = k
+        d.ssh_config_file = "/c"
+        entry = types.SimpleNamespace(port=cp, user=cu, identity_file=ci, hostname=None)
+        stub = types.SimpleNamespace(lookup=lambda host, _e=entry: _e)
+        with mock.patch.object(bd, "ssh_config_factory", lambda ssh_config_file: stub):
+            d._update_ssh_args_from_ssh_config()
+        if (entry.port, entry.user, entry.identity_file) != (cp, cu, ci):
+            raise TranslateError(f"{DRV}: _update_ssh_args_from_ssh_config writes into the entry object it was handed: {vars(entry)}")
+        out = (d.port, d._base_transport_args.port, d.auth_username, d.auth_private_key)
+        if not all(isinstance(x, int) for x in out[:2]) or not all(isinstance(x, str) for x in out[2:]):
+            raise TranslateError(f"{DRV}: _update_ssh_args_from_ssh_config left non int/str values: {out}")
+        rows.append(((cp, given, cu, u, ci or "", k), out))
+    table = dict(rows)
+    flags = {"updCfgPortDialed": table[(2222, False, "", "", "", "")][1] == 2222,
+             "updExplicitPortWins": table[(2222, True, "", "", "", "")][0] == 830}
+    return rows, flags
 
 
 def generate():
@@ -279,11 +366,12 @@ def generate():
     sub2 = _telnet_test_in_file_args(_func(tree, "BaseDriver", "_setup_ssh_file_args"))
     if sub2 != telnet_sub:
         raise TranslateError("default-port block and _setup_ssh_file_args test different telnet substrings")
-    sys1, magic_cfg_attr, cfg_paths = _resolver(_func(tree, "BaseDriver", "_resolve_ssh_config"), "ssh_config_file")
-    sys2, magic_kh_attr, kh_paths = _resolver(_func(tree, "BaseDriver", "_resolve_ssh_known_hosts"), "ssh_known_hosts")
+    sys1, magic_cfg, cfg_paths = _resolver("_resolve_ssh_config")
+    sys2, magic_kh, kh_paths = _resolver("_resolve_ssh_known_hosts")
     if sys1 != sys2 or sys1 not in core:
-        raise TranslateError("the two resolvers test different transport names")
-    magic_cfg, magic_kh = getattr(SystemTransport, magic_cfg_attr), getattr(SystemTransport, magic_kh_attr)
+        raise TranslateError("the two resolvers treat different transports as the system transport")
+    if magic_cfg == magic_kh:
+        raise TranslateError("ssh config and known hosts markers are the same string")
     # _setup_host must strip with no argument (Python whitespace)
     sh = _func(tree, "BaseDriver", "_setup_host")
     strips = [n for n in ast.walk(sh) if isinstance(n, ast.Call) and isinstance(n.func, ast.Attribute) and n.func.attr == "strip"]
@@ -292,6 +380,9 @@ def generate():
     ws = [c for c in range(0x110000) if chr(c).isspace()]
     frag = _argv_fragments(magic_cfg, magic_kh)
     sites = _dial_sites()
+    upd_rows, upd_flags = _update_table()
+    LAST.clear()
+    LAST.update(upd_flags)
     fields = {n: _plugin_fields(n) for n in core}
     # the driver must have every field as an attribute after __init__ (assigned through self.<f> = / tuple targets)
     assigned = set()
@@ -326,6 +417,15 @@ def generate():
         L.append(f"def {k} : List Char := {chars(frag[k])}\n")
     L.append("/-- where the transports hand the parameters to the library / OS (AST-checked to be the base / plugin transport args) -/\n")
     L.append("def dialSites : List (String × String) := [" + ", ".join(f'("{a}", "{b}")' for a, b in sites) + "]\n")
+    L.append("/-- PROBED decision table of `_update_ssh_args_from_ssh_config` (real method, stubbed ssh config entry): ((config Port, port "
+             "given (830) or omitted (22), config User, auth_username, config IdentityFile, auth_private_key), (driver.port, base "
+             "transport args port, auth_username, auth_private_key)) -/\n")
+    L.append("def updateTable : List ((Option Nat × Bool × List Char × List Char × List Char × List Char) × (Nat × Nat × List Char × List Char)) := [\n"
+             + ",\n".join(f"  (({'none' if i[0] is None else 'some ' + str(i[0])}, {'true' if i[1] else 'false'}, {chars(i[2])}, {chars(i[3])}, "
+                          f"{chars(i[4])}, {chars(i[5])}), ({o[0]}, {o[1]}, {chars(o[2])}, {chars(o[3])}))" for i, o in upd_rows) + "]\n")
+    L.append("/-- read off two rows of the table: does a config Port reach the base transport args / does an explicit port win -/\n")
+    L.append(f"def updCfgPortDialed : Bool := {'true' if upd_flags['updCfgPortDialed'] else 'false'}\n")
+    L.append(f"def updExplicitPortWins : Bool := {'true' if upd_flags['updExplicitPortWins'] else 'false'}\n")
     L.append("/-- code points c with chr(c).isspace() in the running CPython (what `str.strip()` removes) -/\n")
     L.append(f"def pyWhitespace : List Nat := {ws}\n")
     L.append("end Scrapli.Gen.Resolve\n")
